@@ -30,6 +30,14 @@ pub struct Aes128Key {
     buf: Buffer,
 }
 
+#[cfg(gufo_snmp_verif)]
+impl Aes128Key {
+    /// Verification hook: start the salt counter at a chosen value
+    pub(crate) fn set_salt_value(&mut self, value: u64) {
+        self.salt_value = value;
+    }
+}
+
 impl SnmpPriv for Aes128Key {
     fn as_localized(&mut self, key: &[u8]) -> SnmpResult<()> {
         if key.len() < KEY_LENGTH {
